@@ -501,7 +501,9 @@ def unroll_plan(s, enums):
     if not (0 < hi - lo <= 4):
         return None
     for x in walk(body):
-        if x.get("kind") in ("BreakStmt", "ContinueStmt", "GotoStmt", "LabelStmt"):
+        # a goto inside the body can only leave the loop when the body declares no label of its own: the copies of the
+        # unrolled body then all jump to the same place outside
+        if x.get("kind") in ("BreakStmt", "ContinueStmt", "LabelStmt"):
             return None
         if x.get("kind") in ("BinaryOperator", "CompoundAssignOperator", "UnaryOperator"):
             tgt = None
@@ -851,6 +853,19 @@ class CFG:
                             continue
                         lit = {"kind": "IntegerLiteral", "value": val, "_line": s.get("_line"), "_file": s.get("_file"), "type": {"qualType": "int"}}
                         n = self.new("ret", lit, s.get("_line"), s)
+                        self.seq(exits, n)
+                        self.link(n, self.exit)
+                    return []
+            if inner and strip(inner[0]).get("kind") == "ConditionalOperator":
+                # `return c ? A : B;` = `if (c) return A; return B;`
+                co = strip(inner[0])
+                parts = [x for x in co.get("inner", []) if isinstance(x, dict)]
+                if len(parts) == 3:
+                    t, f = self.cond(parts[0], preds)
+                    for exits, val in ((t, parts[1]), (f, parts[2])):
+                        if not exits:
+                            continue
+                        n = self.new("ret", val, s.get("_line"), s)
                         self.seq(exits, n)
                         self.link(n, self.exit)
                     return []
@@ -1221,6 +1236,18 @@ class CFG:
         if txt == "VALID":
             return sorted(facts)
         e = strip(n.expr)
+        if e.get("kind") == "CallExpr":
+            # `return reader(args);` — the status of the callee is the status of this function: it accepts when the callee does
+            cn = callee_name(e)
+            rt = ""
+            if cn in self.prog.funcs:
+                rt = (self.prog.funcs[cn].get("type", {}).get("qualType", "") or "").split("(")[0].strip()
+            elif cn in getattr(self.prog, "protos", {}):
+                rt = (self.prog.protos[cn].get("type", {}).get("qualType", "") or "").split("(")[0].strip()
+            if rt in ("ERROR", "int"):
+                add = {"%s == VALID" % txt}
+                return sorted(facts | add | self.expand_summaries(add))
+            return None
         if not (e.get("kind") == "DeclRefExpr" and e["referencedDecl"].get("kind") == "VarDecl"):
             return None
         v = txt
@@ -1304,7 +1331,39 @@ class CFG:
                         ok = False
                 if ok and subst:
                     out.append((self.norm(br.expr, pol, R(self.prog.enums, subst)), br))
+                # a boolean local tested on its own (`const bool ok = A == VALID && B(x); if (!ok) …`): the conjuncts of
+                # its single, still valid definition hold on the edge where it is true (dually for ||)
+                be, bpol = strip(br.expr), pol
+                while be.get("kind") == "UnaryOperator" and be.get("opcode") == "!":
+                    be, bpol = strip(be["inner"][0]), not bpol
+                if be.get("kind") == "DeclRefExpr" and be["referencedDecl"].get("kind") == "VarDecl":
+                    v = be["referencedDecl"]["name"]
+                    d = self.def_of(v, br)
+                    rhs = self.rhs_of(d, v) if d is not None else None
+                    if rhs is not None and v not in killed_vars:
+                        rv = vars_in(rhs)
+                        stable = not any(x.kind in ("stmt", "decl") and x is not d and (self.writes(x) & rv) and self.between_nodes(d, x, n) for x in self.nodes)
+                        if stable:
+                            for atom in self._atoms(rhs, bpol, d, n):
+                                out.append((atom, br))
         return out
+
+    def _atoms(self, e, pol, d, n, depth=0):
+        """atomic facts implied by `e` having truth value `pol` (conjunctions when true, disjunctions when false)"""
+        e = strip(e)
+        if depth > 4:
+            return []
+        if e.get("kind") == "UnaryOperator" and e.get("opcode") == "!":
+            return self._atoms(e["inner"][0], not pol, d, n, depth + 1)
+        if e.get("kind") == "BinaryOperator" and e.get("opcode") in ("&&", "||"):
+            if (e["opcode"] == "&&") == pol:
+                return self._atoms(e["inner"][0], pol, d, n, depth + 1) + self._atoms(e["inner"][1], pol, d, n, depth + 1)
+            return []
+        rend = lambda x: self.render_resolved(x, d, n, 0)
+        if e.get("kind") == "BinaryOperator" and e["opcode"] in self.NEG:
+            op = e["opcode"] if pol else self.NEG[e["opcode"]]
+            return ["%s %s %s" % (rend(e["inner"][0]), op, rend(e["inner"][1]))]
+        return ["%s %s 0" % (rend(e), "!=" if pol else "==")]
 
     def render_resolved(self, e, at, n, depth):
         """render e (evaluated at node `at`) with single-definition locals replaced by their defining
